@@ -1045,7 +1045,11 @@ class PolarsModel(data_algebra.data_model.DataModel):
         if how != "right":
             coalesce_columns = set(op.sources[0].columns_produced()).intersection(
                 op.sources[1].columns_produced()
-            ) - set(op.on_a)
+            )
+            if how != "outer":
+                # inner and left joins merge same-named key columns; a full join keeps both copies,
+                # so there the key columns are coalesced like every other common column
+                coalesce_columns = coalesce_columns - set(op.on_a)
             orphan_keys = [c for c in op.on_b if c not in set(op.on_a)]
             input_right = inputs[1]
             if len(orphan_keys) > 0:
